@@ -134,8 +134,9 @@ def _c04_set(res, case, lab, o):
             res.bad("set-vs-spec", "set(0) = %s, the specification's overlay gives %s" % (r, dec(case["a"]["set0"])))
 
 
-def _c04_namespace(res, case, lab, o):
-    """The option declared inside a namespace behaves like the equivalent fully-qualified Option."""
+def _ns_build(res, case, lab, o):
+    """The root Option declared inside a namespace NS (one of the documented declaration forms, one to four levels
+    deep, implicit and explicit sub-namespaces).  Returns (NS, member, options for NS, full path, extra) or None."""
     nodes = case["nodes"]
     root_nd = nodes[-1]
     def templated(v):
@@ -148,17 +149,17 @@ def _c04_namespace(res, case, lab, o):
         return False
 
     if templated(o) or any(seg.isdigit() for seg in root_nd["p"]):
-        return  # references inside values are relative to the top of the dictionary, not to NS
+        return None  # references inside values are relative to the top of the dictionary, not to NS
     kw = {}
     if root_nd["d"]:
         dn = nodes[root_nd["d"] - 1]
         if dn["k"] != "val":
-            return
+            return None
         kw["default"] = dec(dn["v"])
     if root_nd["dom"]:
         dn = nodes[root_nd["dom"] - 1]
         if dn["k"] != "val":
-            return
+            return None
         kw["domain"] = dec(dn["v"])
     path = root_nd["p"]
     # class NS: [class S:] LEAF = Option('LEAF', default=..., domain=...)
@@ -182,14 +183,53 @@ def _c04_namespace(res, case, lab, o):
         for depth, seg in enumerate(reversed(full[:-1])):
             cls = type(seg, (), ns_dict)
             ns_dict = {seg: lab.Option.namespace(cls) if (explicit and (depth == 0 or extra)) else cls}
+        # the same declarations are also mounted in a second namespace, which is used first: a member belongs to
+        # the namespace it is reached through (NSB.<path> reads under NSB, NS.<path> under NS)
+        NSB = lab.Option.namespace(type("NSB", (), dict(ns_dict)))
+        mb = NSB
+        for seg in full:
+            mb = getattr(mb, seg)
+        observe.call(lambda: mb.evaluate({"NSB": {}}), lab)
         NS = lab.Option.namespace(type("NS", (), ns_dict))
         member = NS
         for seg in full:
             member = getattr(member, seg)
     except Exception as e:  # noqa
         res.bad("namespace-definition", "defining the namespace raised %s: %s" % (type(e).__name__, e))
-        return
+        return None
     o2 = {"NS": {"N2": copy.deepcopy(o)} if extra else copy.deepcopy(o)}
+    return NS, member, o2, full, extra
+
+
+def _c11_namespace(res, case, lab, o):
+    """explain() of a namespace against its own keys() / validate() (the C11 clauses on a Namespace object)."""
+    built = _ns_build(Result(), case, lab, o)
+    if built is None:
+        return
+    NS, member, o2, full, extra = built
+    for target, name in ((NS, "NS"), (member, "NS." + ".".join(full))):
+        x = observe.call(lambda: set(target.explain(copy.deepcopy(o2))), lab)
+        if not x["ok"]:
+            continue
+        k = observe.call(lambda: set(target.keys(copy.deepcopy(o2))), lab)
+        v = observe.call(lambda: target.validate(copy.deepcopy(o2)), lab)
+        absent = {key for key in x["v"] if not _has(o2, key)}
+        if k["ok"] and not k["v"] <= x["v"]:
+            res.bad("namespace-explain-covers-keys", "%s: explain() = %s lacks keys() members %s" % (name, sorted(x["v"]), sorted(k["v"] - x["v"])))
+        if not absent and not v["ok"] and v.get("cls") == "KeyNotFound":
+            res.bad("namespace-none-absent", "%s: every explained key is present, yet validate fails for missing %r" % (name, v.get("key")))
+        if absent and v["ok"]:
+            res.bad("namespace-absent-means-missing", "%s: explain lists absent keys %s but validate passes" % (name, sorted(absent)))
+        if not v["ok"] and v.get("cls") == "KeyNotFound" and v.get("key") not in x["v"]:
+            res.bad("namespace-missing-is-listed", "%s: validate names missing key %r which explain() = %s does not list" % (name, v.get("key"), sorted(x["v"])))
+
+
+def _c04_namespace(res, case, lab, o):
+    """The option declared inside a namespace behaves like the equivalent fully-qualified Option."""
+    built = _ns_build(res, case, lab, o)
+    if built is None:
+        return
+    NS, member, o2, full, extra = built
     path = full
     got = observe.call(lambda: member.evaluate(copy.deepcopy(o2)), lab)
     exp = case["a"]["eval"]
@@ -373,6 +413,8 @@ def judge_c11(case, lab):
     res = Result()
     a = case["a"]
     ob = Obs(case, lab)
+    if case["nodes"][-1]["k"] == "opt":
+        _c11_namespace(res, case, lab, ob.o)
     x = ob.get("explain")
     if not x["ok"]:
         res.nontrivial = True
@@ -586,6 +628,18 @@ def judge_c01_group(cases, lab):
                 res.bad("transparent", "%safter evaluating %s on the same graph, evaluate gives %s; a fresh copy gives %s" % (
                     _blind_tag(cases), hist[-4:], observe.describe(got), observe.describe(ref)))
             hist.append(o)
+    # the caller may reuse ONE dictionary object and change it in place between calls: what counts is its content
+    # at the time of the call
+    g = _fresh(cases[0], lab)
+    live = {}
+    for i in range(len(cases)):
+        o, ref = fresh[i]
+        live.clear()
+        live.update(copy.deepcopy(o))
+        got = observe.call(lambda: g.root.evaluate(live), lab)
+        if not same_outcome(got, ref):
+            out[id(cases[i])].bad("transparent", "%sthe caller's dictionary object, changed in place to %s since the previous call, evaluates to %s; a fresh copy gives %s" % (
+                _blind_tag(cases), o, observe.describe(got), observe.describe(ref)))
     # derivatives of one dataset share its cache: siblings with different pre-set / default values of
     # a key the dataset mentions, evaluated one after the other, each against a fresh graph
     if cases[0]["nodes"][-1]["k"] == "ds":
@@ -700,7 +754,10 @@ def judge_c02_group(cases, lab):
         first = observe.call(lambda: g.root.evaluate(copy.deepcopy(dec(cases[0]["a"]["o"]))), lab)
         if not first.get("lazy"):
             late = []
-            g.root.add_effects(lambda v, _l=late: _l.append(v))
+            late_cb = lambda v, _l=late: _l.append(v)   # noqa: E731
+            g.root.add_effects(late_cb)
+            # the same callback attached to a derivative as well: each dataset has its own effects
+            g.root.with_options({"VERIF_UNUSED": 1}).add_effects(late_cb)
             rid = len(nodes)
             # what is stored stays stored: attaching an effect, or switching the dataset's effects off and on
             # again, neither recomputes nor re-runs effects for options that were already evaluated
@@ -1731,7 +1788,10 @@ def judge_c18(case, lab):
     if plain["evaluate"]["ok"]:
         from labrea.runtime import current_runtime as _cur, handle as _handle
 
-        for inner_form in ("mapping", "single", "cache.disabled"):
+        import labrea.logging
+
+        labrea.logging.disabled()      # an earlier use elsewhere (under another handler table) must not matter
+        for inner_form in ("mapping", "single", "cache.disabled", "logging.disabled"):
             g = _fresh(case, lab)
             seen = []
             base_h = _cur().handlers
@@ -1748,6 +1808,8 @@ def judge_c18(case, lab):
                     ctx = _handle({RT["keys"]: pt_keys})
                 elif inner_form == "single":
                     ctx = _handle(RT["keys"], pt_keys)
+                elif inner_form == "logging.disabled":
+                    ctx = labrea.logging.disabled()
                 else:
                     import labrea.cache
 
@@ -1988,7 +2050,29 @@ def judge_group(prop, cases, lab):
     pairs = [(c, JUDGES[prop](c, lab)) for c in cases]
     if prop in REUSE_PROPS:
         _reuse(prop, pairs, lab)
+    if prop == "C08":
+        _c08_same_dict_object(pairs, lab)
     return pairs
+
+
+def _c08_same_dict_object(pairs, lab):
+    """One long-lived wrapper / dataset called with ONE caller dictionary object that is changed in place between
+    the calls: each call sees the overlay of the dictionary's content at that time."""
+    cases = [c for c, _ in pairs]
+    if len(cases) < 2 or cases[0]["nodes"][-1]["k"] not in ("with", "ds", "dsof"):
+        return
+    if any(c["a"].get("cacheslazy") or c["a"].get("keyblind") for c in cases):
+        return
+    g = _fresh(cases[0], lab)
+    live = {}
+    for c, res in pairs:
+        o = dec(c["a"]["o"])
+        live.clear()
+        live.update(copy.deepcopy(o))
+        got = observe.call(lambda: g.root.evaluate(live), lab)
+        if got.get("lazy"):
+            return
+        _cmp_outcome(res, "overlay-same-dict-object", got, c["a"]["eval"])
 
 
 def signature(prop, clause, case, detail=""):
